@@ -31,7 +31,7 @@ func priv(v any, name string) reflect.Value {
 	return reflect.NewAt(f.Type(), unsafe.Pointer(f.UnsafeAddr())).Elem()
 }
 
-func layout(v rel.Value, depth int) map[string]any {
+func layout05(v rel.Value, depth int) map[string]any {
 	if depth > 6 {
 		return map[string]any{"ty": "deep"}
 	}
@@ -115,7 +115,7 @@ func layout(v rel.Value, depth int) map[string]any {
 		m := priv(x, "m").Interface().(frozen.Map[string, any])
 		bs := []any{}
 		for i := m.Range(); i.Next(); {
-			bs = append(bs, layout(i.Value().(rel.Value), depth+1))
+			bs = append(bs, layout05(i.Value().(rel.Value), depth+1))
 		}
 		return map[string]any{"ty": "UnionSet", "bs": bs}
 	}
@@ -148,7 +148,7 @@ func evalLayout(src string) (rel.Value, map[string]any) {
 	o := obs(r, to, false)
 	if o["st"] == "ok" {
 		v := r.val
-		lo := c05guarded(5*time.Second, func() map[string]any { return layout(v, 0) })
+		lo := c05guarded(5*time.Second, func() map[string]any { return layout05(v, 0) })
 		o["layout"] = lo
 		if s, ok := v.(rel.Set); ok {
 			o["count"] = s.Count()
